@@ -2,7 +2,7 @@ IMPORTS = """From Coq Require Import List Bool Arith NArith Lia Relations Permut
 Import ListNotations.
 From BB Require Import BN Brute SpaceFacts TrapFacts PercolateFacts AttractorFacts Diagram Invariants Checks Filter
   Strict PetriNet Control Meta FilterFacts PetriNetFacts TrappistFacts DiagramStruct DiagramSem1 DiagramCache
-  DiagramDepth DiagramComplete Termination ControlFacts MetaFacts Candidates StrictFacts MinExpandFacts CandidatesFacts."""
+  DiagramDepth DiagramComplete Termination ControlFacts MetaFacts Candidates StrictFacts MinExpandFacts CandidatesFacts SymbolicTest SymbolicTestFacts."""
 
 EX_NET = """
 (* non-vacuity: two bistable switches; x0'=x1, x1'=x0, x2'=x3, x3'=x2 *)
@@ -198,26 +198,36 @@ Proof. vm_compute. reflexivity. Qed.
 
 SPEC["C12"] = dict(title="Attractor sets are the complete attractors and the symbolic fallback agrees", comment="""
 Model: Filter.compute_attractors_filter returns, with the seeds, their reachable sets; check_sets is the
-predicate run on the implementation's sets (enumerated from the BDDs).  PARTIAL: the interleaved symbolic
-reachability (symbolic_attractor_test) is specified by its contract (attractor_test), and the fully symbolic
-fallback is library code (AEON xie_beerel); both are judged through check_seeds / check_sets against the
-brute-force attractors, which makes them agree with each other.""",
+predicate run on the implementation's sets (enumerated from the BDDs).  SymbolicTest.symbolic_test models the
+interleaved forward/backward reachability of symbolic_attractor_test for EVERY heuristic tape and variable
+order; symbolic_test_meets_spec shows it meets the contract (attractor_test) the filter theorem uses, and every
+recorded call of the real function is checked against that contract.  PARTIAL: the fully symbolic fallback is
+library code (AEON xie_beerel); it is judged through check_seeds / check_sets against the brute-force
+attractors, which makes it agree with the default method.""",
  theorems=[("check_sets_ok", "check_sets_ok", None), ("filter_exact", "filter_exact", "sets are, in seed order, the reachable sets of the seeds = their attractors"),
            ("reach_list_sound", "reach_list_sound", None), ("reach_list_complete", "reach_list_complete", None),
-           ("attractor_is_class", "attractor_is_class", "an attractor is the reachable set of any of its states")],
+           ("attractor_is_class", "attractor_is_class", "an attractor is the reachable set of any of its states"),
+           ("symbolic_test_some", "symbolic_test_some", "the interleaved reachability returns exactly the reachable set ..."),
+           ("symbolic_test_none", "symbolic_test_none", "... or None exactly when an avoid state is reachable, for every heuristic tape"),
+           ("symbolic_test_meets_spec", "symbolic_test_meets_spec", None)],
  examples="")
 
 SPEC["C13"] = dict(title="Every operation terminates within bounded work", comment="""
 Model: every while-loop of the expansion code is a fuelled loop returning the distinguished result RFuel
 when the fuel runs out; the theorems give explicit fuel bounds in terms of max_nodes N = 3^n.
-PARTIAL: loops inside symbolic_attractor_test and the simulation minification are not modelled; they are
-covered by the watchdog and the back-edge budget of the run (see finding 2159c02, fixed).""",
+symbolic_test_terminates bounds the interleaved reachability of symbolic_attractor_test (with the progress
+fix 2159c02) for every heuristic tape; noforce_can_stall is the formal record of the repaired defect: without
+the fix a tape that always declines makes the loop run forever on a 3-variable network.
+PARTIAL: the simulation minification loops and the block / SCC strategies are bounded by the back-edge budget
+and the watchdog of the run only.""",
  theorems=[("size_bound", "size_bound", None), ("bfs_terminates", "bfs_terminates", None), ("dfs_terminates", "dfs_terminates", None),
            ("target_terminates", "target_terminates", None), ("min_terminates", "min_terminates", None),
            ("step_terminates", "step_terminates", None), ("run_terminates", "run_terminates", None),
            ("raise_depth_fuel_irrelevant", "raise_depth_fuel_irrelevant", "depth propagation stops by itself (acyclicity)"),
            ("strict_loop_fuel_enough", "strict_loop_fuel_enough", None),
-           ("reach_list_complete", "reach_list_complete", "the reachability worklist finishes within 2^n iterations")],
+           ("reach_list_complete", "reach_list_complete", "the reachability worklist finishes within 2^n iterations"),
+           ("symbolic_test_terminates", "symbolic_test_terminates", None), ("unfixed_loop_can_stall", "noforce_can_stall", "defect D6, formally"),
+           ("fixed_loop_answers_on_that_instance", "stall_fixed_answer", None)],
  examples="")
 
 SPEC["C14"] = dict(title="Cached attractor data is never stale", comment="""
